@@ -229,14 +229,17 @@ func runTSIDSearch(mQuery *structs.MetricsQuery,
 		}
 
 		tf := mQuery.TagsFilters[i]
+		// The filters are sorted by tag key. A further filter on the key of the previous filter only
+		// narrows down the matched tsids; the key is already part of their group ids.
+		repeatedKey := i > 0 && mQuery.TagsFilters[i-1].TagKey == tf.TagKey
 
 		if isWildcardOrRegex(tf) {
-			err = processWildcardOrRegexFilter(mQuery, tf, tracker, metricName, i, attr, tth)
+			err = processWildcardOrRegexFilter(mQuery, tf, tracker, metricName, i, repeatedKey, attr, tth)
 			if err != nil {
 				return nil, err
 			}
 		} else {
-			err = processExactFilter(mQuery, tf, tracker, metricName, attr, tth)
+			err = processExactFilter(mQuery, tf, tracker, metricName, repeatedKey, attr, tth)
 			if err != nil {
 				return nil, err
 			}
@@ -254,7 +257,7 @@ func runTSIDSearch(mQuery *structs.MetricsQuery,
 
 func processExactFilter(mQuery *structs.MetricsQuery,
 	tf *structs.TagsFilter, tracker *tsidtracker.AllMatchedTSIDs, metricName string,
-	attr *AllTagTreeReaders, tth *wmetrics.TagsTreeHolder) error {
+	repeatedKey bool, attr *AllTagTreeReaders, tth *wmetrics.TagsTreeHolder) error {
 
 	var err error
 	var rawTagValueToTSIDs map[string]map[uint64]struct{}
@@ -291,6 +294,8 @@ func processExactFilter(mQuery *structs.MetricsQuery,
 
 	if mQuery.ExitAfterTagsSearch {
 		err = tracker.BulkAddTagsOnly(rawTagValueToTSIDs, mQuery.MetricName, tf.TagKey)
+	} else if repeatedKey {
+		tracker.BulkIntersect(rawTagValueToTSIDs)
 	} else {
 		err = tracker.BulkAdd(rawTagValueToTSIDs, metricName, tf.TagKey)
 	}
@@ -304,7 +309,7 @@ func processExactFilter(mQuery *structs.MetricsQuery,
 
 func processWildcardOrRegexFilter(mQuery *structs.MetricsQuery,
 	tf *structs.TagsFilter, tracker *tsidtracker.AllMatchedTSIDs, metricName string,
-	tfIndex int, attr *AllTagTreeReaders, tth *wmetrics.TagsTreeHolder) error {
+	tfIndex int, repeatedKey bool, attr *AllTagTreeReaders, tth *wmetrics.TagsTreeHolder) error {
 
 	var itr *TagValueIterator
 	var mNameExists bool
@@ -385,7 +390,9 @@ func processWildcardOrRegexFilter(mQuery *structs.MetricsQuery,
 				numValueFiltersNonZero)
 		} else {
 			initMetricName = fmt.Sprintf("%v{", metricName)
-			if tf.IsRegex() {
+			if tf.IsRegex() && repeatedKey {
+				tracker.BulkIntersect(rawTagValueToTSIDs)
+			} else if tf.IsRegex() {
 				err = tracker.BulkAdd(rawTagValueToTSIDs, metricName, tf.TagKey)
 			} else {
 				// wildcard case
